@@ -1,4 +1,108 @@
-import MetapypeModel.Model.Matcher
+import MetapypeModel.Lemmas.Top
+import MetapypeModel.Gen.Rules
+/-
+  C01 — child-sequence validation equals the rule's declared content model.
+
+  `validateChildren` is the model of `Rule._validate_children` (collecting
+  mode; fail-fast observes the head of the same list).  `Lang strict mixed`
+  is the declarative language of a children spec.  `wfTop` is the syntactic
+  class (pairwise distinct names; sequences of rule children and choices;
+  repeating choices `[·, ≤1, ∞]` over rule children with min ≤ 1 ≤ max;
+  exactly-one choices `[·, ≤1, 1]` over rule children and sequences) on which
+  the greedy cursor is exact; the last theorem shows by kernel evaluation that
+  every rule of the regenerated table is in the class.  All other statements
+  are for every spec of the class and every finite sequence (no bound).
+-/
 namespace Metapype
-theorem C01_placeholder : True := trivial
+
+/-- acceptance (no event in collecting mode) ⇔ membership in the rule's language -/
+theorem C01_accept_iff (s : Spec) (hw : wfTop s = true) (nodeName : String) (hn : nodeName ≠ "metadata")
+    (M : Bool) (xs : List String) :
+    validateChildren nodeName M s xs = [] ↔ Lang true M s xs := by
+  simp only [validateChildren, cutAtCrash_eq_nil_iff, validateChildrenRaw, if_neg hn,
+    List.append_eq_nil_iff, List.map_eq_nil_iff]
+  constructor
+  · rintro ⟨⟨_, h2⟩, h3⟩
+    have hrest : (matchTop M s xs).1 = [] := by
+      cases hr : (matchTop M s xs).1 with
+      | nil => rfl
+      | cons a b => rw [hr] at h3; simp at h3
+    obtain ⟨pre, hp, hl⟩ := matchTop_sound M s hw xs [] (by rw [← hrest, ← h2])
+    simp only [List.append_nil] at hp
+    rw [hp]; exact hl
+  · intro hl
+    have hm := matchTop_complete M s hw xs hl
+    refine ⟨⟨?_, by rw [hm]⟩, by rw [hm]; rfl⟩
+    rw [List.filter_eq_nil_iff]
+    intro x hx
+    have := Lang_names_sub true M s xs hl x hx
+    simp [this]
+
+/-- the strict reading is contained in the lax one: the two differ only on sequences whose
+    membership depends on whether an alternative that matches nothing counts as an occurrence -/
+theorem C01_strict_sub_lax (M : Bool) (s : Spec) (w : List String) : Lang true M s w → Lang false M s w :=
+  Lang_strict_lax M s w
+
+/-- the property as worded: in the language (strictly) ⇒ accepted; outside it (even laxly) ⇒ rejected -/
+theorem C01_specified (s : Spec) (hw : wfTop s = true) (nodeName : String) (hn : nodeName ≠ "metadata")
+    (M : Bool) (xs : List String) :
+    (Lang true M s xs → validateChildren nodeName M s xs = []) ∧
+    (¬ Lang false M s xs → validateChildren nodeName M s xs ≠ []) := by
+  refine ⟨(C01_accept_iff s hw nodeName hn M xs).mpr, ?_⟩
+  intro hnl hacc
+  exact hnl (Lang_strict_lax M s xs ((C01_accept_iff s hw nodeName hn M xs).mp hacc))
+
+/-- every reported event is a child-not-allowed / minimum / maximum occurrence error:
+    never a crash, and the `while` loop of `_validate_choice` never diverges -/
+theorem C01_error_family (s : Spec) (hw : wfTop s = true) (nodeName : String) (M : Bool) (xs : List String) :
+    ∀ e ∈ validateChildren nodeName M s xs, e = .err .childNotAllowed ∨ OccEv e := by
+  have hall : ∀ e ∈ validateChildrenRaw nodeName M s xs, e = .err .childNotAllowed ∨ OccEv e := by
+    intro e he
+    simp only [validateChildrenRaw] at he
+    split at he
+    · split at he
+      · simp at he; subst he; exact Or.inr (Or.inr (Or.inl rfl))
+      · cases he
+    · simp only [List.mem_append, List.mem_map] at he
+      rcases he with (⟨_, _, rfl⟩ | he) | he
+      · exact Or.inl rfl
+      · exact Or.inr (matchTop_evs M s hw xs e he)
+      · split at he
+        · cases he
+        · simp at he; subst he; exact Or.inl rfl
+  intro e he
+  simp only [validateChildren] at he
+  rw [cutAtCrash_of_errs] at he
+  · exact hall e he
+  · intro e' he'
+    rcases hall e' he' with h | h | h | h | h <;> exact ⟨_, h⟩
+
+/-- both modes alike: fail-fast raises (at the head of the collected list) iff collecting mode reports -/
+theorem C01_modes (s : Spec) (nodeName : String) (M : Bool) (xs : List String) :
+    (validateChildren nodeName M s xs).head? = none ↔ validateChildren nodeName M s xs = [] := by
+  cases validateChildren nodeName M s xs <;> simp
+
+/-- an empty children section accepts exactly the empty sequence -/
+theorem C01_empty_spec (nodeName : String) (hn : nodeName ≠ "metadata") (M : Bool) (xs : List String) :
+    validateChildren nodeName M (.seq []) xs = [] ↔ xs = [] := by
+  rw [C01_accept_iff (.seq []) (by decide) nodeName hn M xs]
+  simp [Lang, LangSeq]
+
+/-- a `metadata` parent accepts any single child whatever its rule says -/
+theorem C01_metadata (s : Spec) (M : Bool) (xs : List String) :
+    validateChildren "metadata" M s xs = [] ↔ xs.length ≤ 1 := by
+  simp only [validateChildren, cutAtCrash_eq_nil_iff, validateChildrenRaw, if_true]
+  constructor
+  · intro h; split at h
+    · simp at h
+    · omega
+  · intro h; rw [if_neg (by omega)]
+
+/-- non-vacuity: a concrete rule of the class with a nested exactly-one choice and a repeating choice -/
+example : wfTop (.seq [.choice [.seq [.leaf "a" 0 none, .choice [.leaf "b" 1 (some 1), .leaf "c" 1 (some 1)] 0 none],
+                                .leaf "references" 1 (some 1)] 1 (some 1)]) = true := by decide
+
+/-- table: every rule of the regenerated rule table lies in the class the theorems cover -/
+theorem C01_table_wf : ∀ r ∈ Gen.rules, wfTop r.children = true := by decide +kernel
+
 end Metapype
